@@ -1142,6 +1142,11 @@ where
             }
         };
 
+        // Whether this call added the pair. Decided here, where the posting
+        // was modified: the bucket accounting below may zero `size_increase`
+        // again when a concurrent `remove` has already taken the pair back out.
+        let inserted = size_increase > 0;
+
         anda_db_utils::verif_point!("btree.insert.posting-done");
         if is_new {
             // Add the field value to the B-tree for range queries.
@@ -1247,7 +1252,7 @@ where
             }
         }
 
-        if size_increase > 0 {
+        if inserted {
             self.update_metadata(|m| {
                 m.stats.version += 1;
                 m.stats.last_inserted = now_ms;
@@ -1255,7 +1260,7 @@ where
             });
         }
 
-        Ok(size_increase > 0)
+        Ok(inserted)
     }
 
     /// Removes a document_id-field_value pair from the index
